@@ -167,6 +167,18 @@ fn run(req: &Value) -> Result<Value, String> {
             }
             Err(e) => err("parse", format!("{e:#}")),
         },
+        // one parsed phrase asked for several seeds in a row (a seed memoised inside the object would show here)
+        "mnemonic.seeds" => match Mnemonic::from_phrase(strarg(req, "phrase")?) {
+            Ok(m) => {
+                let mut seeds = Vec::new();
+                for p in req["passwords"].as_array().ok_or("missing passwords")? {
+                    let seed = m.seed(p.as_str().ok_or("password is not a string")?);
+                    seeds.push(hex::encode(&*seed));
+                }
+                json!({"ok": {"seeds": seeds}})
+            }
+            Err(e) => err("parse", format!("{e:#}")),
+        },
         "mnemonic.random" => {
             let length = req["length"].as_u64().ok_or("missing length")? as usize;
             {
